@@ -360,7 +360,7 @@ Record request := mk_request {
   q_method : bytes; q_path : bytes; q_query : option bytes; q_version : N;
   q_headers : hmap; q_authority : option bytes; q_early : bytes }.
 
-(** What [request] does with the loop's variables.  (After the repairs e8886f0 / c618f50 of C15: a Host
+(** What [request] does with the loop's variables.  (After the repairs 2fb2d8c / cdbcb3a of C15: a Host
     value that is not an authority is not used for the URI, and without a usable Host value the
     origin-form target is the URI.) *)
 Definition req_finish (https : bool) (dh : option bytes) (all : bytes) (s : scan) : outcome request :=
